@@ -149,6 +149,11 @@ func c13(c *Ctx) {
 	var seqs []seq
 	for i := 0; i < c.N(2, 12); i++ {
 		f := gen.GenFile(newRand(c.R.Int63()), o, 3, c.N(12, 20))
+		// renders share their arguments: a slice argument used as the first class value, followed by another
+		f.Templates = append(f.Templates, &gen.Template{Name: "Shared", Sig: gen.Sig, Body: []*gen.Node{
+			{Kind: gen.KElem, Tag: "a", ClassExprs: []string{"xs", "s1"}, Inline: &gen.Node{Kind: gen.KText, Parts: []gen.Part{{Static: "go"}}}},
+			{Kind: gen.KFor, Chain: []gen.Branch{{Header: "for _, x := range xs", Kids: []*gen.Node{{Kind: gen.KElem, Tag: "i", ClassExprs: []string{"xs", `"k"`}, Inline: &gen.Node{Kind: gen.KScript, Expr: "x"}}}}}},
+		}})
 		prepFile(f)
 		p, src := f.Print()
 		mk := func(conc bool) *RenderCase {
